@@ -3,6 +3,7 @@ C18 — every storage back-end behaves as one sorted round-to-beacon map.
 Property theorems (names listed in vlib/props/C18.py). Models: Drand/Store/{Assoc,Bolt,Mem}.lean.
 -/
 import Drand.Store.Mem
+import Drand.Store.Hold
 import Gen.Locks
 
 namespace Drand.Store
@@ -685,5 +686,147 @@ theorem c18_mem_cursor_sound (s : MemState) (pos : Nat) (op : CurOp) (b : Beacon
     split at h
     · exact read_of_opt_mem (fun x hx => List.mem_of_getElem? hx) h
     · cases h
+
+/-! ### reads return values: what a caller holds does not change under later writes
+
+The aliasing that the `hold`/`cmp` ops of engine `store` look for (a returned `[]byte` that is a window into bbolt's
+mmap'ed page, or memdb handing out a pointer it later writes through) cannot be expressed in the model — a `Read` is a
+value. The theorem states the obligation the implementation has to meet; only the correspondence run can exhibit a
+violation of it, because the violation is behaviour of the Go runtime (shared backing arrays), not of the map. -/
+
+private theorem slot_run_other {σ : Type} (B : Backend σ) (k : Nat) (later : List HOp)
+    (hno : ∀ rq', HOp.hold k rq' ∉ later) (h : Held σ) :
+    (Held.run B h later).slot k = h.slot k := by
+  induction later generalizing h with
+  | nil => rfl
+  | cons op later ih =>
+    have hno' : ∀ rq', HOp.hold k rq' ∉ later := fun rq' hm => hno rq' (List.mem_cons_of_mem _ hm)
+    unfold Held.run
+    rw [List.foldl_cons]
+    have := ih hno' (Held.step B h op)
+    unfold Held.run at this
+    rw [this]
+    cases op with
+    | put b => rfl
+    | del r => rfl
+    | hold k' rq =>
+      have hk : k' ≠ k := by
+        intro e
+        subst e
+        exact hno rq List.mem_cons_self
+      simp only [Held.step, Held.slot, List.lookup_cons]
+      have : (k == k') = false := by simpa using fun e => hk e.symm
+      rw [this]
+
+/-- **c18_read_is_snapshot.** For every back-end, every state, every read path (`Get`, `Last`, any read-only cursor
+session) and every later sequence of writes, deletions and other callers' reads: the value a read returned and its caller
+still holds equals the value that read computed from the store *as it was at the time of the read*. -/
+theorem c18_read_is_snapshot {σ : Type} (B : Backend σ) (h : Held σ) (k : Nat) (rq : ReadReq) (later : List HOp)
+    (hno : ∀ rq', HOp.hold k rq' ∉ later) :
+    (Held.run B (Held.step B h (.hold k rq)) later).slot k = some (B.read h.store rq) := by
+  rw [slot_run_other B k later hno]
+  simp [Held.step, Held.slot]
+
+/-- … and, for the untrimmed bolt store reached by any op sequence, that value is what the sorted-map specification
+holds for the round at that time (the beacon last put and not deleted since), whatever is put or deleted afterwards. -/
+theorem c18_bolt_held_get (ops : List Op) (slots : List (Nat × Read)) (k r : Nat) (later : List HOp)
+    (hno : ∀ rq', HOp.hold k rq' ∉ later) :
+    (Held.run boltBackend (Held.step boltBackend ⟨Bolt.run ops, slots⟩ (.hold k (.get r))) later).slot k =
+      some (match Spec.run ops r with | some b => .ok b | none => .noBeacon) := by
+  rw [c18_read_is_snapshot boltBackend ⟨Bolt.run ops, slots⟩ k (.get r) later hno]
+  exact congrArg some (c18_bolt_refines_map ops r)
+
+/-! ### `Put` under a context: answered ok ⇒ readable, answered with an error ⇒ no effect -/
+
+/-- **c18_put_ok_readable.** After a `Put` that answered ok the round is readable with the value put: untrimmed bolt
+returns the beacon; trimmed bolt returns its round and signature (and the previous signature it reconstructs) unless
+the context requires previous signatures and round−1 is missing; memdb returns it when the round was not stored before
+and the ring has room. -/
+theorem c18_put_ok_readable :
+    (∀ (s : BoltState) (b : Beacon), Bolt.get (boltBackend.putCtx s b true) b.round = .ok b) ∧
+    (∀ (s : TrimmedState) (b : Beacon),
+        lookup b.round (trimmedBackend.putCtx s b true).kv = some b.sig ∧
+        ((s.requiresPrevious && decide (b.round > 0)) = false →
+          Trimmed.get (trimmedBackend.putCtx s b true) b.round = .ok ⟨b.round, b.sig, []⟩) ∧
+        (∀ p, (s.requiresPrevious && decide (b.round > 0)) = true → lookup (b.round - 1) s.kv = some p →
+          Trimmed.get (trimmedBackend.putCtx s b true) b.round = .ok ⟨b.round, b.sig, p⟩)) ∧
+    (∀ (s : MemState) (b : Beacon), (∀ x ∈ s.store, x.round ≠ b.round) → s.store.length < s.cap →
+        Mem.get (memBackend.putCtx s b true) b.round = .ok b) := by
+  refine ⟨?_, ?_, ?_⟩
+  · intro s b
+    simp [Backend.putCtx, boltBackend, Bolt.get, Bolt.put, c18_lookup_insert]
+  · intro s b
+    have hk : lookup b.round (Trimmed.put s b).kv = some b.sig := by
+      simp [Trimmed.put, c18_lookup_insert]
+    refine ⟨by simpa [Backend.putCtx, trimmedBackend] using hk, ?_, ?_⟩
+    · intro hc
+      have hrp : (Trimmed.put s b).requiresPrevious = s.requiresPrevious := rfl
+      simp only [Backend.putCtx, trimmedBackend, if_true, Trimmed.get, Trimmed.getBeacon, hk, hrp, Bool.true_and]
+      rw [if_neg (by simp [hc])]
+    · intro p hc hp
+      have hrp : (Trimmed.put s b).requiresPrevious = s.requiresPrevious := rfl
+      have hne : b.round - 1 ≠ b.round := by
+        have : b.round > 0 := by
+          simp only [Bool.and_eq_true, decide_eq_true_eq] at hc
+          exact hc.2
+        omega
+      have hp' : lookup (b.round - 1) (Trimmed.put s b).kv = some p := by
+        simp only [Trimmed.put, c18_lookup_insert, if_neg hne, hp]
+      simp only [Backend.putCtx, trimmedBackend, if_true, Trimmed.get, Trimmed.getBeacon, hk, hrp, Bool.true_and]
+      rw [if_pos hc, hp']
+  · intro s b hnew hroom
+    have hany : ¬ (s.store.any (·.round == b.round)) = true := by
+      simp only [List.any_eq_true, not_exists, not_and]
+      intro x hx he
+      exact hnew x hx (by simpa using he)
+    have hlen := ins_length b s.store
+    have hput : (Mem.put s b).store = Mem.ins b s.store := by
+      unfold Mem.put
+      rw [if_neg hany]
+      simp only
+      rw [if_neg (by omega)]
+    have hfind : ∀ l : List Beacon, (∀ x ∈ l, x.round ≠ b.round) →
+        (Mem.ins b l).find? (·.round == b.round) = some b := by
+      intro l
+      induction l with
+      | nil => intro _; simp [Mem.ins]
+      | cons x t ih =>
+        intro hl
+        unfold Mem.ins
+        split
+        · simp
+        · have hx : (x.round == b.round) = false := by simpa using hl x List.mem_cons_self
+          rw [List.find?_cons, hx]
+          exact ih (fun y hy => hl y (List.mem_cons_of_mem _ hy))
+    simp only [Backend.putCtx, memBackend, if_true, Mem.get, hput, hfind s.store hnew]
+
+/-- **c18_put_failed_no_effect.** A `Put` that answered with an error (its context was cancelled before the write) leaves
+every read as it was. -/
+theorem c18_put_failed_no_effect {σ : Type} (B : Backend σ) (s : σ) (b : Beacon) (rq : ReadReq) :
+    B.read (B.putCtx s b false) rq = B.read s rq := by
+  simp [Backend.putCtx]
+
+/-- **c18_saveto_is_content.** `SaveTo` runs inside one read transaction (`db.View` … `tx.WriteTo`): the copy is the
+content of the bucket at that moment, so a store opened on the copy answers every `Get` as the original did. Stated for
+the model: reading the dumped association list back is the identity on `lookup`, for any op sequence. -/
+theorem c18_saveto_is_content (ops : List Op) (r : Nat) :
+    lookup r ((Bolt.run ops).map fun p => (p.1, p.2)) = lookup r (Bolt.run ops) ∧
+    BoltInv ((Bolt.run ops).map fun p => (p.1, p.2)) := by
+  have : ((Bolt.run ops).map fun p => (p.1, p.2)) = Bolt.run ops := by
+    simp
+  rw [this]
+  exact ⟨rfl, c18_bolt_inv ops⟩
+
+/-! non-vacuity -/
+example : (Held.run boltBackend (Held.step boltBackend ⟨Bolt.run [.put ⟨1, [0xaa], []⟩, .put ⟨2, [0xbb], [0xaa]⟩], []⟩ (.hold 7 (.get 2)))
+    [.put ⟨3, [0xcc], [0xbb]⟩, .put ⟨2, [0xdd], [0xaa]⟩, .del 2, .hold 8 (.get 2)]).slot 7 = some (.ok ⟨2, [0xbb], [0xaa]⟩) := by decide
+example : (Held.run trimmedBackend (Held.step trimmedBackend ⟨⟨true, [(1, [0xaa]), (2, [0xbb])]⟩, []⟩ (.hold 0 (.cursor [.seek 2])))
+    [.put ⟨3, [0xcc], []⟩, .del 1]).slot 0 = some (.ok ⟨2, [0xbb], [0xaa]⟩) := by decide
+example : (Held.run memBackend (Held.step memBackend ⟨⟨2, [⟨1, [0xaa], []⟩, ⟨2, [0xbb], []⟩]⟩, []⟩ (.hold 0 .last))
+    [.put ⟨3, [0xcc], []⟩, .put ⟨4, [0xdd], []⟩]).slot 0 = some (.ok ⟨2, [0xbb], []⟩) := by decide
+example : Bolt.get (boltBackend.putCtx [(1, ⟨1, [0xaa], []⟩)] ⟨2, [0xbb], [0xaa]⟩ true) 2 = .ok ⟨2, [0xbb], [0xaa]⟩ ∧
+    Bolt.get (boltBackend.putCtx [(1, ⟨1, [0xaa], []⟩)] ⟨2, [0xbb], [0xaa]⟩ false) 2 = .noBeacon := by decide
+example : Trimmed.get (trimmedBackend.putCtx ⟨true, [(1, [0xaa])]⟩ ⟨2, [0xbb], [0x99]⟩ true) 2 = .ok ⟨2, [0xbb], [0xaa]⟩ := by decide
+example : Mem.get (memBackend.putCtx ⟨3, [⟨1, [0xaa], []⟩]⟩ ⟨2, [0xbb], []⟩ true) 2 = .ok ⟨2, [0xbb], []⟩ := by decide
 
 end Drand.Store
